@@ -1191,7 +1191,8 @@ impl ValueTable {
 	}
 
 	pub fn is_init(&self) -> bool {
-		self.file.map.read().is_some()
+		// A file without any entry (creation was interrupted) counts as not initialised.
+		self.file.map.read().is_some() && self.filled.load(Ordering::Relaxed) > 1
 	}
 
 	pub fn init_with_entry(&self, entry: &[u8]) -> Result<()> {
@@ -1204,7 +1205,9 @@ impl ValueTable {
 	}
 
 	fn do_init_with_entry(&self, entry: &[u8]) -> Result<()> {
-		self.file.grow(self.entry_size)?;
+		if self.file.capacity.load(Ordering::Relaxed) < 2 {
+			self.file.grow(self.entry_size)?;
+		}
 
 		let empty_overlays = RwLock::new(LogOverlays::with_columns(0));
 		let mut log = LogWriter::new(&empty_overlays, 0);
@@ -1213,7 +1216,10 @@ impl ValueTable {
 		assert_eq!(at, 1);
 		let log = log.drain();
 		let change = log.local_values_changes(self.id).expect("entry written above");
-		for (at, (_rec_id, entry)) in change.map.iter() {
+		// The header (entry 0) is written last: it is what marks the table as initialised.
+		let mut entries: Vec<_> = change.map.iter().collect();
+		entries.sort_by_key(|(at, _)| std::cmp::Reverse(**at));
+		for (at, (_rec_id, entry)) in entries {
 			self.file.write_at(entry.as_slice(), *at * (self.entry_size as u64))?;
 		}
 		Ok(())
